@@ -90,12 +90,6 @@ pub(crate) struct Frame {
     temporary_count: u8,
     // Tracks the number of temporary registers used by the frame
     temporaries_used_in_frame: u8,
-    // Used to decide if an additional return instruction is needed,
-    // e.g. `f = |x| return x`
-    //               ^ explicit return as final expression, implicit return not needed
-    // This is a coarse check, e.g. we currently don't check if the last expression
-    // returns in all branches, but it'll do for now as an optimization for simple cases.
-    pub last_node_was_return: bool,
     // An optional output type hint that should cause type checks to be emitted when the frame is
     // exited.
     // If the frame is representing a generator, then yield expressions will be checked, otherwise
